@@ -1444,7 +1444,8 @@ fn check_uvs_counts(run: &Run, d: &Value, l: &mut Local) {
         let v = |g: u16| Some(MapVariant::Variant(GlyphId::new(g as u32)));
         match what.as_str() {
             "nondefault" => {
-                for i in [0, 1, n / 2, 65534, 65535.min(n - 1), n - 2, n - 1] {
+                // entry indices, every one clamped to the table (n may be below 65535)
+                for i in [0, 1, n / 2, 65534.min(n - 1), 65535.min(n - 1), n - 2, n - 1] {
                     queries.push((nd_cp(i), 0xFE00, v(nd_gid(i))));
                 }
                 queries.push((nd_cp(0) - 1, 0xFE00, None));
@@ -1452,7 +1453,8 @@ fn check_uvs_counts(run: &Run, d: &Value, l: &mut Local) {
                 queries.push((nd_cp(0), 0xFE01, None));
             }
             "default" => {
-                for i in [0, 1, n / 2, 65534, 65535.min(n - 1), n - 2, n - 1] {
+                // entry indices, every one clamped to the table (n may be below 65535)
+                for i in [0, 1, n / 2, 65534.min(n - 1), 65535.min(n - 1), n - 2, n - 1] {
                     queries.push((rg_cp(i), 0xFE00, Some(MapVariant::UseDefault)));
                     queries.push((rg_cp(i) + 1, 0xFE00, None));
                 }
